@@ -7,6 +7,7 @@ compare; lengths are ordinary integer terms.
 """
 from fractions import Fraction as Fr
 
+import copy
 from .terms import (Poly, B, NAN, ZERO, ONE, INF, TRUE, FALSE, as_poly, bconst, bnot, band, bor, cmp_term,
                     t_min, t_max, t_abs, t_app, b_app, t_div)
 from . import interp as I
@@ -745,6 +746,21 @@ def m_slice_get(it, st, fr, t, args, ga):
     return ('fork', [(cmp_term('Lt', idx.term, c.len), some_c), (cmp_term('Ge', idx.term, c.len), lambda it2, s2, f2: none())])
 
 
+def m_option_filter(it, st, fr, t, args, ga):
+    """Option::filter(self, p): Some(x) when self is Some(x) and p(&x), None otherwise"""
+    e, clo = args[0], args[1]
+    v = _known_variant(e)
+    if v == 0:
+        return none()
+    if not isinstance(clo, I.ClosureV):
+        raise I.InterpError('Option::filter with non-closure')
+    x = e.payload[1][0]
+    r = it.call_closure(st, clo, [I.RefV(st.new_cell(x))])
+    if not isinstance(r, I.BoolV):
+        raise I.InterpError('Option::filter predicate is not boolean: %r' % (r,))
+    return ('fork', [(r.b, some(x)), (bnot(r.b), none())])
+
+
 def m_option_copied(it, st, fr, t, args, ga):
     e = args[0]
     v = _known_variant(e)
@@ -1173,6 +1189,158 @@ def m_iter_sum(it, st, fr, t, args, ga):
     return I.Num(t_app('sum', [c.term]), 'f32')
 
 
+
+# ---------------------------------------------------------------- lazy iterator chains
+
+_LAZY_ADAPTORS = {'map': 'map', 'filter': 'filter', 'flat_map': 'flat_map', 'flatten': 'flatten', 'chain': 'chain', 'enumerate': 'enumerate',
+                  'rev': 'same', 'skip': 'same', 'take': 'same', 'step_by': 'same', 'peekable': 'same', 'fuse': 'same', 'copied': 'deref', 'cloned': 'deref',
+                  'take_while': 'same', 'skip_while': 'same', 'inspect': 'same', 'by_ref': 'same'}
+
+
+def _iter_like(it, st, v):
+    v = it.deref(st, v) if isinstance(v, I.RefV) else v
+    if isinstance(v, (I.LazyIterV, I.ArrV)):
+        return True
+    if isinstance(v, I.StructV) and v.path.split('::')[-1] in ('Range', 'RangeInclusive'):
+        return True
+    if isinstance(v, I.EnumV) and v.path.endswith('::Option'):
+        return True
+    return isinstance(v, I.ContV)
+
+
+def lazy_iter_model(it, st, cands, args):
+    """dispatch hook of the interpreter: `Iterator::<adaptor>` on an iterator-like value builds a LazyIterV as soon as a lazy
+    node is involved (closure adaptors, flatten, chain, or an inner lazy value); `next` / `into_iter` on a LazyIterV"""
+    if not args:
+        return None
+    name = cands[0][0].split('::')[-1]
+    trait = '::'.join(cands[0][0].split('::')[:-1])
+    a0 = it.deref(st, args[0]) if isinstance(args[0], I.RefV) else args[0]
+    if isinstance(a0, I.LazyIterV):
+        if name == 'next' and 'Iterator' in trait:
+            return m_lazy_next
+        if name == 'into_iter':
+            return lambda it_, st_, fr_, t_, args_, ga_: args_[0]
+    if name in ('into_iter', 'iter') and isinstance(a0, I.ArrV) and a0.items is not None:
+        # [a, b, c].into_iter() / .iter(): the array itself stands for its element sequence
+        return lambda it_, st_, fr_, t_, args_, ga_: I.LazyIterV('same' if name == 'into_iter' else 'refs', a0)
+    if not (trait.endswith('Iterator') and name in _LAZY_ADAPTORS):
+        return None
+    if not _iter_like(it, st, args[0]):
+        return None
+    kind = _LAZY_ADAPTORS[name]
+    lazy_needed = isinstance(a0, (I.LazyIterV, I.ArrV)) or kind in ('map', 'filter', 'flat_map', 'flatten', 'chain', 'enumerate') \
+        or (isinstance(a0, I.EnumV))
+    if not lazy_needed:
+        return None
+    if kind in ('map', 'filter', 'flat_map') and not (len(args) > 1 and isinstance(args[1], I.ClosureV)):
+        return None
+
+    def build(it_, st_, fr_, t_, args_, ga_):
+        inner = args_[0]
+        if kind in ('map', 'filter', 'flat_map'):
+            return I.LazyIterV(kind, inner, clo=args_[1])
+        if kind == 'chain':
+            return I.LazyIterV('chain', inner, other=args_[1])
+        return I.LazyIterV(kind, inner)
+    return build
+
+
+def _lazy_elems(it, st, v, depth=0):
+    """[(state, element)]: every way of picking an arbitrary element of the sequence v (forked states carrying the facts
+    that make the pick possible); [] when the sequence is certainly empty"""
+    if depth > 8:
+        raise I.InterpError('lazy iterator chain too deep')
+    v = it.deref(st, v) if isinstance(v, I.RefV) else v
+    if isinstance(v, I.StructV) and v.path.split('::')[-1] in ('Range', 'RangeInclusive'):
+        incl = v.path.split('::')[-1] == 'RangeInclusive'
+        start, end = v.get('start'), v.get('end')
+        s2 = st.fork()
+        lo_t, hi_t = I.INT_RANGES.get(start.ty, (0, 2 ** 32 - 1))
+        x = s2.ctx.sym_range(s2.fresh_name('iter_item'), lo_t, hi_t, integer=True)
+        if s2.ctx.assume(cmp_term('Ge', x, start.term)) is False or s2.ctx.assume(cmp_term('Le' if incl else 'Lt', x, end.term)) is False:
+            return []
+        return [(s2, I.Num(x, start.ty))]
+    if isinstance(v, I.ArrV) and v.items is not None:
+        return [(st.fork(), copy.deepcopy(x)) for x in v.items]
+    if isinstance(v, I.EnumV) and v.path.endswith('::Option'):
+        out = []
+        poss = [v.variant] if v.variant is not None else (v.possible if v.possible is not None else [0, 1])
+        if 1 in poss:
+            s2 = st.fork()
+            v2 = copy.deepcopy(v)
+            if v2.variant is None and hasattr(it, 'refine_enum'):
+                it.refine_enum(s2, v2, 1)
+            fty = None
+            ta = v2.targs
+            if isinstance(ta, dict) and ta:
+                fty = ta.get('T') or next(iter(ta.values()))
+            elif isinstance(ta, list) and ta:
+                fty = ta[0].get('ty') if isinstance(ta[0], dict) and 'ty' in ta[0] else ta[0]
+            pl = it.enum_payload(s2, v2, 1, fty=fty if isinstance(fty, dict) else None, fidx=0)
+            out.append((s2, pl[0]))
+        return out
+    if isinstance(v, I.ContV):
+        if v.len is not None and st.ctx.decide(cmp_term('Eq', v.len, 0)) is True:
+            return []
+        s2 = st.fork()
+        if v.len is not None:
+            i = s2.ctx.sym_range(s2.fresh_name('iter_idx'), 0, 2 ** 32, integer=True)
+            if s2.ctx.assume(cmp_term('Lt', i, v.len)) is False:
+                return []
+            return [(s2, _elem_value(it, s2, v, i))]
+        return [(s2, it.sym_value(s2, v.elem_ty or {'k': 'uint', 'n': 'u8'}, s2.fresh_name('iter_item')))]
+    if isinstance(v, I.LazyIterV):
+        k = v.kind
+        if k in ('same',):
+            return _lazy_elems(it, st, v.inner, depth + 1)
+        if k == 'refs':
+            return [(s, I.RefV(s.new_cell(x))) for s, x in _lazy_elems(it, st, v.inner, depth + 1)]
+        if k == 'deref':
+            return [(s, it.deref(s, x) if isinstance(x, I.RefV) else x) for s, x in _lazy_elems(it, st, v.inner, depth + 1)]
+        if k == 'enumerate':
+            out = []
+            for s, x in _lazy_elems(it, st, v.inner, depth + 1):
+                i = s.ctx.sym_range(s.fresh_name('enum_idx'), 0, 2 ** 32, integer=True)
+                out.append((s, I.TupleV([I.Num(i, 'usize'), x])))
+            return out
+        if k == 'chain':
+            return _lazy_elems(it, st, v.inner, depth + 1) + _lazy_elems(it, st, v.other, depth + 1)
+        if k == 'map':
+            return [(s, it.call_closure(s, v.clo, [x])) for s, x in _lazy_elems(it, st, v.inner, depth + 1)]
+        if k == 'filter':
+            out = []
+            for s, x in _lazy_elems(it, st, v.inner, depth + 1):
+                r = it.call_closure(s, v.clo, [I.RefV(s.new_cell(x))])
+                if not isinstance(r, I.BoolV):
+                    raise I.InterpError('filter predicate is not boolean: %r' % (r,))
+                if s.ctx.assume(r.b) is not False:
+                    out.append((s, x))
+            return out
+        if k == 'flatten':
+            out = []
+            for s, x in _lazy_elems(it, st, v.inner, depth + 1):
+                out += _lazy_elems(it, s, x, depth + 1)
+            return out
+        if k == 'flat_map':
+            out = []
+            for s, x in _lazy_elems(it, st, v.inner, depth + 1):
+                y = it.call_closure(s, v.clo, [x])
+                out += _lazy_elems(it, s, y, depth + 1)
+            return out
+    raise I.InterpError('lazy iterator over %r is not modelled' % (v,))
+
+
+def m_lazy_next(it, st, fr, t, args, ga):
+    v = it.deref(st, args[0])
+    states = [(st.fork(), none())]
+    for s, x in _lazy_elems(it, st, v):
+        states.append((s, some(x)))
+        if len(states) > 64:
+            raise I.InterpError('lazy iterator yields too many abstract elements')
+    return ('states', states)
+
+
 _NORM = [
     ('core::iter::traits::iterator::Iterator', 'core::iter::Iterator'),
     ('core::iter::traits::collect::IntoIterator', 'core::iter::IntoIterator'),
@@ -1433,6 +1601,7 @@ def registry():
         'core::iter::Iterator::copied': m_copied,
         'core::iter::Iterator::cloned': m_copied,
         'core::option::Option::<T>::map': m_option_map,
+        'core::option::Option::<T>::filter': m_option_filter,
         'core::option::Option::<&T>::copied': m_option_copied,
         'core::option::Option::<&T>::cloned': m_option_copied,
         'heapless::vec::Vec::<T, N>::as_slice': m_vec_deref,
